@@ -95,11 +95,14 @@ macro_rules! def_row_check {
                 return;
             };
             // decoded header fields equal the encoded ones
-            assert!(fde_entry.cie().code_alignment_factor() == ca);
-            assert!(fde_entry.cie().data_alignment_factor() == da);
-            assert!(fde_entry.cie().return_address_register() == Register(ra as u16));
-            assert!(fde_entry.initial_address() == init_loc);
-            assert!(fde_entry.len() == range);
+            assert!(
+                fde_entry.cie().code_alignment_factor() == ca
+                    && fde_entry.cie().data_alignment_factor() == da
+                    && fde_entry.cie().return_address_register() == Register(ra as u16)
+                    && fde_entry.initial_address() == init_loc
+                    && fde_entry.len() == range,
+                "decoded CIE/FDE header fields"
+            );
 
             let mut ctx: UnwindContext<usize, Store3> = UnwindContext::new_in();
             let table = fde_entry.rows(&section, &bases, &mut ctx);
@@ -113,23 +116,24 @@ macro_rules! def_row_check {
                     }
                     Ok(Some(row)) => {
                         if let Ok((s, e)) = want {
-                            assert!(row.start_address() == s, "row start");
-                            assert!(row.end_address() == e, "row end");
-                            assert!(row.saved_args_size() == m.state.args_size, "args size");
-                            match (row.cfa(), m.state.cfa) {
-                                (CfaRule::RegisterAndOffset { register, offset }, MCfa::RegOff(r, o)) => {
-                                    assert!(register.0 == r && *offset == o, "CFA rule")
-                                }
-                                (CfaRule::Expression(x), MCfa::Expr(o, l)) => assert!(x.offset == o && x.length == l, "CFA expression"),
-                                _ => assert!(false, "CFA rule kind"),
-                            }
-                            assert!(rule_same(row.register(Register(0)), m.state.get(0)), "register rule r0");
-                            assert!(rule_same(row.register(Register(7)), m.state.get(7)), "register rule r7");
-                            assert!(rule_same(row.register(Register(16)), m.state.get(16)), "register rule r16");
-                            assert!(rule_same(row.register(Register(33)), m.state.get(33)), "register rule r33");
-                            assert!(rule_same(row.register(Register(34)), m.state.get(34)), "register rule r34");
-                            assert!(rule_same(row.register(Register(1000)), m.state.get(1000)), "register rule r1000");
-                            assert!(row.registers().count() == m.state.count(), "number of register rules");
+                            // one combined obligation (each separate assert costs a solver call on this code)
+                            let cfa_ok = match (row.cfa(), m.state.cfa) {
+                                (CfaRule::RegisterAndOffset { register, offset }, MCfa::RegOff(r, o)) => register.0 == r && *offset == o,
+                                (CfaRule::Expression(x), MCfa::Expr(o, l)) => x.offset == o && x.length == l,
+                                _ => false,
+                            };
+                            let same = row.start_address() == s
+                                && row.end_address() == e
+                                && row.saved_args_size() == m.state.args_size
+                                && cfa_ok
+                                && rule_same(row.register(Register(0)), m.state.get(0))
+                                && rule_same(row.register(Register(7)), m.state.get(7))
+                                && rule_same(row.register(Register(16)), m.state.get(16))
+                                && rule_same(row.register(Register(33)), m.state.get(33))
+                                && rule_same(row.register(Register(34)), m.state.get(34))
+                                && rule_same(row.register(Register(1000)), m.state.get(1000))
+                                && row.registers().count() == m.state.count();
+                            assert!(same, "unwind row (start, end, CFA, register rules, args size) differs from the call-frame semantics");
                             if twin {
                                 assert!(row.end_address() == 0x77, "twin");
                             }
